@@ -115,7 +115,9 @@ def observe_misuse(ic: Any, cell: dict) -> Tuple[str, str]:
                 params = "OLD=1"
             elif m in ("param_result_pre_violated", "param_OLD_pre_violated"):
                 params = "{}=1".format(m.split("_")[1])
-                ns["PRE_VIOLATED"] = ic.require(lambda: False)
+                def _never() -> bool:
+                    return False
+                ns["PRE_VIOLATED"] = ic.require(_never)     # (a named condition: no source text has to be recovered)
             elif m in ("param_result_kwonly", "param_OLD_kwonly"):
                 params = "x=1, *, {}=1".format(m.split("_")[1])
             elif m in ("param_result_posonly", "param_OLD_posonly"):
